@@ -26,12 +26,17 @@ type histReplay struct {
 }
 
 var numRe = regexp.MustCompile(`[0-9]+`)
+var tagRe = regexp.MustCompile(`^([a-z][a-z0-9]*(?:-[a-z0-9]+)+): `)
 
 // failSig normalises an oracle failure message into a signature.
 func failSig(msg string) string {
 	// drop the op index prefix, replace numbers
 	if i := indexOf(msg, ": "); i >= 0 && len(msg) > 3 && msg[:3] == "op#" {
 		msg = msg[i+2:]
+	}
+	// messages of the form "<tag-without-spaces>: details" are identified by their tag alone
+	if m := tagRe.FindStringSubmatch(msg); m != nil {
+		return m[1]
 	}
 	msg = numRe.ReplaceAllString(msg, "N")
 	if len(msg) > 90 {
